@@ -166,7 +166,7 @@ pub fn triples(tier: Tier) -> Vec<Triple> {
     // block-wise hashing of the transcript could lose a length prefix)
     let x: Vec<u8> = (0..600u32).map(|i| (i % 251) as u8).collect();
     let mut lsp = vec![];
-    let (is, js): (Vec<usize>, Vec<usize>) = if tier.thorough() { (vec![127, 128, 129, 130, 255, 256, 257], vec![128, 129, 130]) } else { (vec![128, 129, 256], vec![128, 129]) };
+    let (is, js): (Vec<usize>, Vec<usize>) = if tier.thorough() { (vec![127, 128, 129, 130, 255, 256, 257], vec![128, 129, 130]) } else { (vec![129, 130, 256], vec![129, 130]) };
     for i in is {
         for j in js.iter().map(|d| i + d) {
             lsp.push((x[..i].to_vec(), x[i..j].to_vec(), x[j..].to_vec()));
